@@ -1,5 +1,5 @@
 (* ast/node.go: the String methods of the expression nodes, of PrintNode and of
-   PrintDirectiveNode -- AFTER the repairs proposed in notes/pending/C17-*.diff (operands are
+   PrintDirectiveNode -- AFTER the repairs proposed in notes/applied/C17-*.diff, applied to /repo as a67ff8b a61ee13 980bf96 418294b 94b42ac (operands are
    parenthesised by the precedence table, a negated numeric literal prints as -(5), the
    ternary operator prints with spaces, map keys are written as escaped string literals, an
    integral float prints with ".0").  The tables (ast_binary_prec, ast_prec_*,
